@@ -33,7 +33,7 @@ def parseEv (s : String) : Option Ev :=
 def showReply : Reply → String
   | .success => "S" | .failure => "F" | .pkOk => "P"
 
-/-- run <new|old> <async 0/1> <noauth users: u:1,...|-> <pw: u:c,...|-> <key: u:k,...|-> events... -/
+/-- run <new|mid|old> <async 0/1><perUserKeys 0/1> <noauth users: u:1,...|-> <pw: u:c,...|-> <key: u:k,...|-> events... -/
 def step (_ : Unit) (ws : List String) : Unit × String :=
   let r := match ws with
     | "run" :: variant :: async :: noauth :: pw :: key :: evs =>
@@ -42,9 +42,10 @@ def step (_ : Unit) (ws : List String) : Unit × String :=
         let na := pairsOf noauth
         let pws := pairsOf pw
         let ks := pairsOf key
-        let app : App := { needsAuth := fun u => !(na.any (·.1 == u)), beginAsync := async == "1",
-                           pwOK := fun u c => pws.any (· == (u, c)), keyOK := fun u k => ks.any (· == (u, k)) }
-        let s := if variant == "old" then runOld app es else run app es
+        let app : App := { needsAuth := fun u => !(na.any (·.1 == u)), beginAsync := async.startsWith "1",
+                           pwOK := fun u c => pws.any (· == (u, c)), keyOK := fun u k => ks.any (· == (u, k)),
+                           perUserKeys := async.endsWith "1" && async.length == 2 }
+        let s := if variant == "old" then runOld app es else if variant == "mid" then runMid app es else run app es
         let comp := match s.complete with | some u => toString u | none => "-"
         s!"out={String.join (s.out.map showReply)} complete={comp} closed={if s.closed then 1 else 0}"
       | none => "bad-op"
